@@ -1,16 +1,5 @@
-// Environment: struct file_mem (src/uncrustify_types.h) with the real member names; containers renamed per D9.
+// struct file_mem now lives in cpd.h (cp_data_t has file_mem members)
 #ifndef VERIF_FILE_MEM_H
 #define VERIF_FILE_MEM_H
 #include "cpd.h"
-#ifndef VERIF_FS_H
-struct utimbuf { long actime; long modtime; };
-#endif
-struct file_mem                 //@struct
-{
-   vector_UINT8    raw;         //@f& struct vector_UINT8
-   deque_int       data;        //@f& struct deque_int
-   bool            bom;         //@f
-   char_encoding_e enc;         //@f unsigned int
-   struct utimbuf  utb;
-};
 #endif
